@@ -79,6 +79,10 @@ check("C05", "scans: exactly the live keys, once, in order, within bounds", [
 ], [SIMFS, CLOCK, HASH, BLOOM, RAND, LOG, TIERA], [])
 
 check("C06", "concurrent gets, puts and deletes are linearizable", [
+    ob("VerifC06_ReadsDuringFlush", "pkg/engine/storage", "writer (overwrite or delete) || reader (two gets) || the real background flush goroutine (|| an explicit flush in thorough) with a 1-byte memtable: each read returns the old or the new state, reads do not go back in time, a read after the write sees it, the write is acknowledged and in effect at the end",
+       "3 threads, preemption bound 1, background flush loop started as a thread", "4 threads (explicit flush), preemption bound 1", q={"preempt": 1, "background": ["backgroundFlush"], "budget_s": 400}, t={"preempt": 1, "background": ["backgroundFlush"], "budget_s": 3000}, no_validate=True),
+    ob("VerifC06_ErrorMeansNoEffect", "pkg/engine/storage", "1-byte memtable, table budget 1-2, no flusher keeping up: sequences of puts/deletes; a reported success took effect, a reported error took none",
+       "<=4 operations on one key"),
     ob("VerifC06_PutVsFlush", "pkg/engine/storage", "one client Put racing FlushMemTables (MemTableSize=1), then a sequential Get: success => visible, error => no effect; data races on the way are reported",
        "2 threads, preemption bound 1", "preemption bound 2", q=P1, t=P2, no_validate=True),
 ], [SIMFS, CLOCK, HASH, BLOOM, RAND, LOG, "Tier B: schedules enumerated exhaustively up to the preemption bound; data symbolic in every schedule"], [">2 clients", "compaction worker", "Close"])
@@ -147,6 +151,10 @@ check("C14", "a connected replica converges (reduced form: data path under an id
 check("C15", "replicas cannot stall or fail the primary (safety core)", [
     ob("VerifC15_StalledReplicaDoesNotBlockClients", "pkg/replication", "a replica whose stream Send never returns (optionally next to a healthy one); one client write meets it; a second client's read / write must still complete",
        "1-2 sessions, 2 client operations, preemption bound 1", q=P1, no_validate=True, reach=("probed",)),
+    ob("VerifC15_PollVsWriteNoDeadlock", "pkg/replication", "a client write concurrent with the polling sender serving a healthy replica (what every tick of the stream loop calls), all three sync modes: both complete (compatible lock orders between the push path inside the log append and the poll path)",
+       "2 threads, preemption bound 2", q=P2, no_validate=True, reach=("probed", "done")),
+    ob("VerifC15_HeartbeatVsWriteNoDeadlock", "pkg/replication", "the heartbeat sweep finding a replica dead (failing stream or silent beyond the timeout) concurrent with a client write and optionally an acknowledgement for that session: everything returns, the dead replica leaves the reported topology, the healthy one stays",
+       "2-3 threads, preemption bound 1", "preemption bound 2", q=P1, t=P2, no_validate=True, reach=("probed", "done")),
     ob("VerifC15_HeartbeatDropsSilentReplicas", "pkg/replication", "one step of the heartbeat monitor over two sessions with symbolic idle times and possibly failing streams: silent or failing replicas leave the reported topology, healthy ones stay and get a heartbeat",
        "2 sessions, idle times < 24 h kept 1 s away from the limits"),
     ob("VerifC15_FailingReplicaDoesNotFailWrites", "pkg/replication", "a replica whose stream fails on every send next to a healthy one: client writes succeed, the healthy replica is sent every write, the failing one is marked disconnected and not sent to again",
@@ -155,7 +163,9 @@ check("C15", "replicas cannot stall or fail the primary (safety core)", [
    ["latency ('normal time') and any wall-clock bound: only 'completes at all' is decided", "TCP-level stalls, keepalive, gRPC flow control", "more than two replicas"])
 
 check("C16", "a replica refuses client writes but keeps applying replicated ones", [
-    ob("VerifC16_ReadOnlyRejects", "pkg/engine", "read-only EngineFacade: client mutators rejected, *Internal bypasses apply", "5 mutator shapes + bypasses"),
+    ob("VerifC16_ReadOnlyRejects", "pkg/engine", "read-only EngineFacade: client mutators rejected with nothing changed and no lock left held, *Internal bypasses apply, flag kept", "5 mutator shapes + bypasses"),
+    ob("VerifC16_ApplyVsClientWrite", "pkg/engine", "a replicated operation applied through PutInternal / DeleteInternal / ApplyBatchInternal concurrently with a client put / delete / batch / read-write transaction and a status query: the client write is refused, its key never appears, the replicated operation takes effect, read-only is reported throughout, no lock left held",
+       "3 apply shapes x 4 client shapes, preemption bound 1", "preemption bound 2", q=P1, t=P2, no_validate=True),
 ], [SIMFS, CLOCK, HASH, BLOOM, JSON, LOG, TIERA], [])
 
 check("C17", "every transaction ends and releases the database", [
@@ -171,6 +181,10 @@ check("C17", "every transaction ends and releases the database", [
 check("C19", "the network API behaves like the embedded API", [
     ob("VerifC19_PutGetDelete", "pkg/grpc/service", "service Put/Get/Delete handlers vs. embedded engine", "1 key"),
     ob("VerifC19_TxHandles", "pkg/grpc/service", "transaction handle lifecycle through the service handlers", "1 transaction", q=P1, no_validate=True),
+    ob("VerifC19_ScanOptions", "pkg/grpc/service", "Scan / TxScan with a symbolic prefix, suffix, prefix+suffix, start/end range or nothing and limit 0..2 over three symbolic two-byte keys (memtable + SSTable, one possibly deleted): streamed result = embedded view under the documented filter",
+       "3 keys, 1-byte filters, limit 0..2, preemption bound 0 (Begin's worker goroutine)", q={"preempt": 0}, no_validate=True),
+    ob("VerifC19_BatchWriteLimits", "pkg/grpc/service", "BatchWrite with a valid batch or one violating a documented limit (empty key, 4097-byte key, unknown operation, 1001 operations) at a symbolic position: valid => effect of the embedded batch; rejected => error, no effect, database lock free, later Put and Scan complete",
+       "2 operations (1001 for the size limit), 5 conditions x 2 positions"),
 ], [SIMFS, CLOCK, HASH, BLOOM, JSON, LOG], ["wire encoding", "interceptors", "TLS"])
 
 check("C20", "configuration is validated and persists", [
